@@ -1671,3 +1671,34 @@ def _wrap_int(v, t):
     if t in ("unsigned char",):
         return v & 0xFF
     return v
+
+
+def default_obj(prog, cls, over=None):
+    """An object of record `cls` with every declared field present: false / 0 / null / empty, then `over` applied.
+    Used by rules that build symbolic receivers, so that an edit which starts reading another field of the same object is
+    still interpreted (with that field at its neutral value) instead of leaving the supported subset."""
+    it = Interp(prog, Oracle([]))
+    o = Obj(cls)
+    try:
+        fields = it.all_fields(cls)
+    except Unsupported:
+        fields = []
+    for f in fields:
+        sk = f.get("sk")
+        if sk == "bool":
+            o.f[f["name"]] = False
+        elif sk in ("int", "enum"):
+            o.f[f["name"]] = 0
+        elif sk == "float":
+            o.f[f["name"]] = Fraction(0)
+        elif sk == "pointer":
+            o.f[f["name"]] = None
+        elif sk == "record":
+            try:
+                o.f[f["name"]] = it.default_value(f["t"])
+            except Exception:
+                o.f[f["name"]] = UNINIT
+        else:
+            o.f[f["name"]] = UNINIT
+    o.f.update(over or {})
+    return o
